@@ -203,6 +203,26 @@ def _url_case(vals, acc):
         acc.fail('params-raises', {'url': url, 'exception': type(e).__name__},
                  {'url': [url, allow, default_scheme]})
         return
+    if isinstance(p1, dict) and isinstance(p2, dict):
+        # the dicts handed out belong to the caller: scribbling on them must not
+        # change what the next call answers
+        p1['scribbled'] = 'x'
+        p2['scribbled'] = ['y']
+        for v in p2.values():
+            if isinstance(v, list):
+                v.append('scribbled')
+        try:
+            q1, q2 = got.params(), got.params(collapse=False)
+        except Exception as e:
+            q1 = q2 = ('raises', type(e).__name__)
+        if q1 != last or q2 != want_multi:
+            acc.fail('params-shared-between-calls', {'url': url, 'second_call': [q1, q2]},
+                     {'url': [url, allow, default_scheme]})
+            return
+        del p1['scribbled'], p2['scribbled']
+        for v in p2.values():
+            if isinstance(v, list):
+                v.remove('scribbled')
     if p1 != last or p3 != last or p2 != want_multi:
         acc.fail('params', {'url': url, 'collapse_true': p1, 'collapse_false': p2,
                             'want_last': last, 'want_all': want_multi},
